@@ -266,6 +266,32 @@ def r4(R, repo):
   R.require(n_blocks >= 4, 'expected >= 4 locked blocks that change shared state')
 
 
+@rule('C20.R5', 'K1+K4', 4, 'pad_shard_unpad: padding rows are appended after the real rows in flat order; unpad keeps the first b flat rows')
+def r5(R, repo):
+  m2 = repo.mod(JU)
+  pad = m2.func('pad_shard_unpad.pad_shard_unpad_wrapper.pad')
+  unpad = m2.func('pad_shard_unpad.pad_shard_unpad_wrapper.unpad')
+  c = cfg_of(pad)
+  x = astu.params(pad.node)[0]
+  cats = [n for n in c.nodes if isinstance(n.stmt, ast.Assign) and isinstance(n.stmt.value, ast.Call) and astu.call_name(n.stmt.value) == 'np.concatenate']
+  resh = [n for n in c.nodes if n.kind == 'stmt' and any(isinstance(y, ast.Call) and astu.call_tail(y) == 'reshape' for y in ast.walk(n.stmt))]
+  R.require(len(cats) >= 1 and len(resh) == 1, 'pad: np.concatenate / reshape not found')
+  for n in cats:
+    call = n.stmt.value
+    ax = astu.kwarg(call, 'axis') or (call.args[1] if len(call.args) > 1 else None)
+    lst = call.args[0]
+    ok = (ax is None or astu.is_const(ax, 0)) and isinstance(lst, ast.List) and len(lst.elts) == 2 and astu.src(lst.elts[0]) == x and astu.src(n.stmt.targets[0]) == x and \
+        isinstance(lst.elts[1], ast.Call) and astu.call_name(lst.elts[1]) == 'np.zeros'
+    R.check(ok, key_of(pad, 'zeros appended after the real rows along axis 0', astu.short(call, 50)), (pad, n.stmt),
+            'padding must be appended *after* the real rows along the flat batch axis (`np.concatenate([x, zeros], axis=0)`); `%s` places padding elsewhere, so the first b rows of the flattened output are no longer the real rows' % astu.short(call, 90))
+  ok = all(resh[0] in c.reach([n]) and n not in c.reach(resh) for n in cats)
+  R.check(ok, key_of(pad, 'flat padding first, reshape to (devices, per-device batch) last'), pad, 'the array must be padded while still flat and reshaped to (d, db, ...) only afterwards: padding after the reshape interleaves zero rows between the devices\' real rows')
+  rs = [y for y in ast.walk(resh[0].stmt) if isinstance(y, ast.Call) and astu.call_tail(y) == 'reshape'][0]
+  R.check([astu.src(a) for a in rs.args] == ['d', 'db', '*shape'], key_of(pad, 'reshape(d, db, *shape)'), pad, 'pad must reshape to (d, db, *shape)')
+  t = astu.src(unpad.node)
+  R.check('.reshape([np.prod(x.shape[:2]), *x.shape[2:]])[:b]' in t, key_of(unpad, 'flatten the two leading axes, keep the first b rows'), unpad, 'unpad must merge the (device, per-device) axes and keep exactly the first b rows')
+
+
 def w_items(w):
   return w.items
 
@@ -275,7 +301,7 @@ meta('C20',
      'including predicates handed to wait_for), publication order in __init__ (every field the thread uses is assigned on all paths before Thread.start()), '
      'FIFO discipline and exactly-once append per fetched item (CFG), delivery order items -> error -> StopIteration and notify-after-change in every locked '
      'block. prefetch_to_device: deque append/popleft pairing, initial fill, one refill per yield, source consumed only through itertools.islice.',
-     not_decided=['pad_shard_unpad, scan_in_dim, replicate/unreplicate/shard/stack_forest/onehot: array arithmetic and shapes (values)',
+     not_decided=['pad_shard_unpad beyond the flat-order clause of R5, scan_in_dim, replicate/unreplicate/shard/stack_forest/onehot: array arithmetic and shapes (values)',
                   'liveness (absence of deadlock) under all interleavings: lock-set and publication order are necessary conditions only'],
      mutants=[
          Mutant('C20-m1', PI, "        item = self._buffer.pop(0)", "        item = self._buffer.pop()", 'C20.R3'),
@@ -294,4 +320,5 @@ meta('C20',
                 "  def close(self):\n    cond = self._cond\n    with self._cond:\n      self._active = False\n      self._cond.notify_all()", kind='benign'),
          Mutant('C20-m7', JU, "  enqueue(size)  # Fill up the buffer.\n  while queue:\n    yield queue.popleft()\n    enqueue(1)", "  enqueue(size)  # Fill up the buffer.\n  while queue:\n    enqueue(1)\n    yield queue.popleft()", 'C20.R3',
                 why='still order preserving? no: with size=0 nothing is yielded... kept as structure drift'),
+         Mutant('C20-m9', JU, "      return x.reshape(d, db, *shape)", "      return np.swapaxes(x.reshape(db, d, *shape), 0, 1)", 'C20.R5'),
      ])
